@@ -13,7 +13,9 @@ Sub-checks
             implementation must raise.
   synthetic LinearEstimator driven through a real StandardQst whose coefficient tables are replaced by small exact
             matrices (tall / wide / rank-deficient / unequal block lengths / malformed data): the estimator AS CODED
-            (model op c09.coded) must agree branch by branch, and the property predicates are evaluated.
+            (model op c09.coded = the code after the repairs fixes/fullrank-guard-column-rank.diff and
+            fixes/linear-estimator-unequal-outcome-counts.diff) must agree branch by branch, is_fullrank_matA() must
+            agree with the model's guard (exact rank == number of columns), and the property predicates are evaluated.
   large     (thorough) 2-qubit QPT: exact inverse is out of budget, the normal equations and exact recovery are
             evaluated exactly on the implementation's output.
 """
@@ -335,8 +337,7 @@ def chk_tomo(ctx, case):
     if ms["status"] == "ker":
         # generated as informationally complete but exactly rank deficient: the implementation must raise
         ctx.count(sub, key=(lab0, "ker", case["seed"]), nontrivial=True, label=lab0 + ":rank-deficient")
-        if ist == "ok":
-            report_accepted(ctx, sub, case, A, ms, fullrank_impl)
+        check_rank_deficient(ctx, sub, case, A, ms, ist, ires, fullrank_impl)
         return
     kappa = ms["kappa"]
     if kappa > KAPPA_BAND:
@@ -358,6 +359,8 @@ def chk_tomo(ctx, case):
     if cst != "ok":
         ctx.violation(sub, SITE_EST, "model-branch", "implementation returns, model-as-coded raises code %s" % cval, case)
         return
+    if unequal:
+        ctx.count(sub, key=(lab0, "unequal", case["seed"]), nontrivial=True, label=lab0 + ":unequal-outcome-counts-estimated")
     tol = 1e-9 * kappa
     xs_impl = [np.asarray(v, dtype=float) for v in ires.estimated_var_sequence]
     if len(xs_impl) != len(data):
@@ -447,16 +450,34 @@ def chk_tomo(ctx, case):
                 ctx.violation(sub, "consistency_check.calc_mse_of_true_estimated", "exact-recovery", "%s %s: squared error to the true object %.3g" % (lab0, d["label"], mse), case)
 
 
-def report_accepted(ctx, sub, case, A, ms, fullrank_impl):
+def report_accepted(ctx, sub, case, A, ms, fullrank_impl, returned=True):
+    """the model certified a kernel vector of A^T A (tester set not informationally complete): the estimator must raise
+    at the guard.  Called when it returned a value, or when is_fullrank_matA() is True (then an exception, if any, came from
+    np.linalg.inv hitting an exact zero pivot - by luck, not by design)."""
     m_, n_ = A.shape
     w = [float(t) for t in ms["w"]]
+    how = "the estimator returns a value instead of raising" if returned else "the estimator only fails later inside np.linalg.inv (LinAlgError)"
     if m_ < n_:
         ctx.violation(sub, SITE_GUARD, "wide-matA-passes-guard",
-                      "matA is %dx%d (fewer rows than variables), A^T A is exactly singular (certified kernel vector, e.g. w=%s), is_fullrank_matA()=%s and the estimator returns a value instead of raising"
-                      % (m_, n_, [round(t, 4) for t in w[:6]], fullrank_impl), case)
+                      "matA is %dx%d (fewer rows than variables), A^T A is exactly singular (certified kernel vector, e.g. w=%s), is_fullrank_matA()=%s and %s"
+                      % (m_, n_, [round(t, 4) for t in w[:6]], fullrank_impl, how), case)
     else:
-        ctx.violation(sub, SITE_EST, "rank-deficient-accepted",
-                      "matA %dx%d has exact rank %d < %d (certified kernel vector) but the estimator returns a value; is_fullrank_matA()=%s" % (m_, n_, ms["rank"], n_, fullrank_impl), case)
+        ctx.violation(sub, SITE_EST if returned else SITE_GUARD, "rank-deficient-accepted",
+                      "matA %dx%d has exact rank %d < %d (certified kernel vector) but is_fullrank_matA()=%s and %s" % (m_, n_, ms["rank"], n_, fullrank_impl, how), case)
+
+
+def check_rank_deficient(ctx, sub, case, A, ms, ist, ires, fullrank_impl):
+    """tester set with a certified kernel: the (repaired) code raises at the guard (model: E_guard).  The exception CLASS is
+    not part of the property and is not compared, with one exception: a LinAlgError means np.linalg.inv was reached with an
+    exactly singular A^T A - the branch the model proves unreachable (C09_never_singular); np.linalg.inv raises there only
+    when LU happens to hit an exact zero pivot, otherwise it returns a meaningless matrix."""
+    if ist == "ok":
+        report_accepted(ctx, sub, case, A, ms, fullrank_impl, returned=True)
+    elif fullrank_impl:
+        report_accepted(ctx, sub, case, A, ms, fullrank_impl, returned=False)
+    elif isinstance(ires, np.linalg.LinAlgError):
+        ctx.violation(sub, SITE_EST, "guard-not-consulted", "rank-deficient tester set, is_fullrank_matA()=False, but the estimator reaches np.linalg.inv of the singular A^T A (LinAlgError: %s) instead of raising at the guard"
+                      % str(ires)[:100], case)
 
 
 def truth_specs(rng, kind, sysname, nout, k):
@@ -533,7 +554,7 @@ def sub_tomo(ctx):
             cases.append(tomo_case(rng, "povmt", "t1", para, "complete", nout=3, n_truth=3, n_adv=1, n_var=1, n_samp=1))
             cases.append(tomo_case(rng, "povmt", "t1", para, "over-dep", nout=2, n_truth=2, n_adv=1, n_var=1, n_samp=1))
             # qutrit tester set with a 2-outcome and 3-outcome POVMs (over-complete, unequal outcome counts)
-            cases.append(tomo_case(rng, "qst", "t1", para, "mixed", n_truth=2, n_adv=1, n_var=1, n_samp=0))
+            cases.append(tomo_case(rng, "qst", "t1", para, "mixed", n_truth=2, n_adv=1, n_var=1, n_samp=1))
     if not ctx.quick:
         for para in (False, True):
             cases.append(tomo_case(rng, "qpt", "t1", para, "complete", n_truth=3, n_adv=1, n_var=1, n_samp=1))
@@ -575,8 +596,11 @@ def chk_rankdef(ctx, case):
             ctx.violation(sub, SITE_EST, "unexpected-raise", "%s: certified inverse (kappa %.3g) but the estimator raises %s" % (lab, ms["kappa"], type(ires).__name__), case)
         return
     ctx.count(sub, key=(lab, case["seed"]), nontrivial=True, label=lab + (":wide" if m_ < n_ else ":tall-or-square") + (":raises-" + type(ires).__name__ if ist == "raise" else ":RETURNS"))
-    if ist == "ok":
-        report_accepted(ctx, sub, case, A, ms, fullrank_impl)
+    # the model of the (repaired) code raises at the guard: exact rank < number of columns
+    cst, cval = model_coded(ctx, A, b, [[(10, d) for d in dists]])
+    if (cst, cval) != ("err", 1) or ms["rank"] >= n_:
+        ctx.violation(sub, SITE_MODEL, "guard-vs-kernel", "certified kernel vector but model-as-coded gives %s %s, exact rank %s of %s columns" % (cst, cval if cst == "err" else "", ms["rank"], n_), case)
+    check_rank_deficient(ctx, sub, case, A, ms, ist, ires, fullrank_impl)
     # the certified kernel vector is invisible to the testers: two variable vectors, same exact data (runtime echo of theorem 11)
     w = ms["w"]
     if any(x != 0 for x in model_predict(ctx, A, np.zeros(m_), w)):
@@ -673,36 +697,46 @@ def chk_synthetic(ctx, case):
     unequal = len(set(sizes)) > 1
     lab = "%s:%s%s%s" % (case["label"], "inv" if ms["status"] == "inv" else "ker", ":unequal-blocks" if unequal else "", "" if wellformed else ":malformed-data")
     ctx.count(sub, key=(case["label"], case["id"]), nontrivial=(m_ >= 2 and n_ >= 2), label=lab + ":" + (("model-ok" if cst == "ok" else "model-err%s" % cval)))
-    # ---- (1) branch correspondence with the estimator as coded
-    want = {1: "Exception", 3: "ValueError", 4: "ValueError"}
+    fullrank_impl = bool(qt.is_fullrank_matA())
+    # ---- (0) the guard: is_fullrank_matA() == (exact rank == number of columns)  [exact small integers: no band needed]
+    if ms["status"] == "ker":
+        # not informationally complete (certified kernel vector): model raises at the guard, so must the implementation
+        if (cst, cval) != ("err", 1) or ms["rank"] >= n_:
+            ctx.violation(sub, SITE_MODEL, "guard-vs-kernel", "certified kernel vector but model-as-coded gives %s %s, exact rank %s of %s columns" % (cst, cval if cst == "err" else "", ms["rank"], n_), case)
+            return
+        check_rank_deficient(ctx, sub, case, A, ms, ist, ires, fullrank_impl)
+        return
+    if ms["rank"] != n_ or not fullrank_impl:
+        ctx.violation(sub, SITE_GUARD, "rank-value", "certified inverse exists but exact rank %s of %s columns, is_fullrank_matA()=%s" % (ms["rank"], n_, fullrank_impl), case)
+        return
+    # ---- (1) branch correspondence with the estimator as coded (full column rank from here on)
     if cst == "ok":
         if ist != "ok":
-            ctx.violation(sub, SITE_EST, "model-branch", "model-as-coded returns, implementation raises %s: %s" % (type(ires).__name__, str(ires)[:150]), case)
+            if unequal and wellformed and isinstance(ires, ValueError):
+                ctx.violation(sub, SITE_EST, "unequal-outcome-counts-raise", "blocks of %s rows, full column rank (certified inverse), model-as-coded returns, but the estimator raises ValueError: %s" % (sizes, str(ires)[:100]), case)
+            elif wellformed:
+                ctx.violation(sub, SITE_EST, "unexpected-raise", "certified inverse exists, model-as-coded returns, but the estimator raises %s: %s" % (type(ires).__name__, str(ires)[:150]), case)
+            else:
+                ctx.violation(sub, SITE_EST, "model-branch", "model-as-coded returns, implementation raises %s: %s" % (type(ires).__name__, str(ires)[:150]), case)
             return
-    elif cval in want:
-        if ist != "raise" or type(ires).__name__ != want[cval]:
-            ctx.violation(sub, SITE_EST, "model-branch", "model-as-coded raises code %s (%s), implementation: %s" % (cval, want[cval], "returns" if ist == "ok" else type(ires).__name__), case)
+    elif cval in (3, 4):
+        # malformed data: np.hstack of no block (3) / f - b with different lengths (4): ValueError
+        if wellformed:
+            ctx.violation(sub, SITE_MODEL, "model-branch", "model-as-coded raises code %s on well-formed data" % cval, case)
             return
-    elif cval == 2:
-        # singular A^T A behind a passing guard: np.linalg.inv either raises LinAlgError or returns a meaningless matrix
-        if ist == "raise" and type(ires).__name__ != "LinAlgError":
-            ctx.violation(sub, SITE_EST, "model-branch", "model-as-coded: singular inverse behind passing guard; implementation raises %s" % type(ires).__name__, case)
-            return
+        if ist != "raise":        # the exception class (ValueError today) is not part of the property and is not compared
+            ctx.violation(sub, SITE_EST, "model-branch", "model-as-coded raises code %s (data of the wrong length), implementation returns a value" % cval, case)
+        return
     else:
-        ctx.violation(sub, SITE_MODEL, "certificate-rejected", "model-as-coded internal error %s" % cval, case)
+        # 1 (guard) / 2 (singular behind a passing guard) contradict the certified inverse; 5 = producer failed
+        ctx.violation(sub, SITE_MODEL, "certificate-rejected", "model-as-coded gives error %s although an inverse is certified" % cval, case)
         return
     # ---- (2) the property
-    if ms["status"] == "ker":
-        if ist == "ok":
-            report_accepted(ctx, sub, case, A, ms, bool(qt.is_fullrank_matA()))
-        return
     if not wellformed:
-        return        # malformed data: only the error branch was compared
-    if ist == "raise":
-        if unequal and isinstance(ires, ValueError):
-            ctx.violation(sub, SITE_EST, "unequal-outcome-counts-raise", "blocks of %s rows, full column rank (certified inverse) but the estimator raises ValueError: %s" % (sizes, str(ires)[:100]), case)
-        else:
-            ctx.violation(sub, SITE_EST, "unexpected-raise", "certified inverse exists but the estimator raises %s" % type(ires).__name__, case)
+        # model-as-coded AND implementation return on data that do not follow the schedule's block structure (possible
+        # with np.hstack when the total length happens to be m): values are compared through (1) only
+        if len(ires.estimated_var_sequence) != len(cval) or any(maxabs(x, [float(t) for t in c]) > 1e-9 * (1 + max(abs(float(t)) for t in c)) * ms.get("kappa", 1.0) for x, c in zip(ires.estimated_var_sequence, cval)):
+            ctx.violation(sub, SITE_EST, "value", "synthetic %s: estimate on irregular data differs from the model-as-coded" % case["label"], case)
         return
     kappa = ms["kappa"]
     tol = 1e-11 * kappa
@@ -859,7 +893,7 @@ def sub_large(ctx):
     ctx.run_cases("large", chk_large, cases)
 
 
-SUBS = [("synthetic", sub_synthetic), ("tomo", sub_tomo), ("rankdef", sub_rankdef), ("large", sub_large)]
+SUBS = [("tomo", sub_tomo), ("rankdef", sub_rankdef), ("synthetic", sub_synthetic), ("large", sub_large)]
 FNS = {"synthetic": chk_synthetic, "tomo": chk_tomo, "rankdef": chk_rankdef, "large": chk_large}
 
 
